@@ -19,8 +19,11 @@ def strip(o, ids=True, locations=False):
 
 
 def make_doc(seed, family, i, **kw):
+    """allow_default=True: every fifth document is written for (and must then be parsed by) a matcher whose default dialect
+    is the document's dialect — only check_doc() does that, so only its callers pass the flag."""
     r = rng(seed, "doc", family, i)
-    if "default_dialect" not in kw and "dialect" not in kw and i % 5 == 2:
+    kw = dict(kw)
+    if kw.pop("allow_default", False) and "default_dialect" not in kw and "dialect" not in kw and i % 5 == 2:
         # every fifth document is written for a matcher whose DEFAULT dialect is the document's dialect (header optional)
         from .. import dialects as _d
         names = sorted(_d.master())
